@@ -433,7 +433,7 @@ func runC13(c *Ctx) {
 	}
 	c.States = int64(len(c.distinct))
 	c.Sample(map[string]interface{}{"network": c13Spec(c13Shape{1}, 0b10_01_0110, true, false).Short(), "history": opsString([]int{opLoad1, opRecursive}), "continuation": opsString([]int{opLoad2, opFwd1, opFwd2})})
-	c.Rule = fmt.Sprintf("networks: ALL digraphs over {bias, input, output, hidden} (4 neuron->neuron edges incl. self-loops and output->hidden, 4 sensor->neuron edges; the output precedes the hidden node in the node list)%s, each in two variants (plain; cycle-closing edges flagged recurrent and time-delayed in the standard network + mixed activation types); solvers: standard Network, the fast solver derived from it, and a fast solver constructed directly through NewFastModularNetworkSolver with the bias links as ordinary connections; alphabet: Load(0.5), Load(-1.5), Forward(1), Forward(2), Recursive, Relax(3,1e-9) [fast], Depth(0), Depth(1) [network], Flush; histories additionally Activate() [network], a load with the wrong number of values, and the read-only accessors / printers / graph queries; every history h of length 1..%d and every continuation s of length 1..%d: outputs, boolean results and errors of every step of s after (h; Flush) must equal those on a fresh instance bit for bit. Plus deep chains: 640 chain-shaped networks (chain length 1-4, one extra recurrent link into a chain node from the sensor / a side neuron / the output / the node itself, time-delayed or not, node list in signal or reverse order, with or without a direct sensor->output link) x 5 driving modes (Activate, ForwardSteps(1), alternating, fast solver ForwardSteps(1), fast solver Relax) x every warm-up length 1..7 before the flush, then a 7-step sequence compared step by step with a fresh instance. states = distinct (network, solver, variant), transitions = (h,s) pairs compared",
+	c.Rule = fmt.Sprintf("networks: ALL digraphs over {bias, input, output, hidden} (4 neuron->neuron edges incl. self-loops and output->hidden, 4 sensor->neuron edges; the output precedes the hidden node in the node list)%s, each in two variants (plain; cycle-closing edges flagged recurrent and time-delayed in the standard network + mixed activation types); solvers: standard Network, the fast solver derived from it, and a fast solver constructed directly through NewFastModularNetworkSolver with the bias links as ordinary connections; alphabet: Load(0.5), Load(-1.5), Forward(1), Forward(2), Recursive, Relax(3,1e-9) [fast], Depth(0), Depth(1) [network], Flush; histories additionally Activate() [network], a load with the wrong number of values, and the read-only accessors / printers / graph queries; every history h of length 1..%d and every continuation s of length 1..%d: outputs, boolean results and errors of every step of s after (h; Flush) must equal those on a fresh instance bit for bit. Plus deep chains: chain-shaped networks (chain length 1-4 with the extra link into every chain node, and chain lengths 9, 24, 48 (thorough also 96, 160) with the extra link into the first, middle and last chain node; one extra recurrent link from the sensor / a side neuron / the output / the node itself, time-delayed or not, node list in signal or reverse order, with or without a direct sensor->output link; each plain, with a multiply / max module reading the link's target, and as a linear chain with a non-finite history; counter chain_networks) x 5 driving modes (Activate, ForwardSteps(1), alternating, fast solver ForwardSteps(1), fast solver Relax) x warm-up lengths 1..7 (long chains: 1, 2, 3, L/2, L, L+1, L+3) before the flush, then a sequence of 7 (long chains: L+4) steps compared step by step with a fresh instance. states = distinct (network, solver, variant), transitions = (h,s) pairs compared",
 		map[bool]string{true: " plus six hand-picked two-hidden recurrent networks", false: " and ALL digraphs over {bias, input, output, 2 hidden} (9 + 6 edges; histories and continuations of length <= 2 for these)"}[c.Quick()], hl, sl)
 	c.Assume("observations are the outputs, results and errors after every operation (node-internal state is observed only through them)")
 }
@@ -584,6 +584,9 @@ func c13ChainStepsIn(net *network.Network, solver network.Solver, mode int, n in
 // c13ChainRun returns (observations after warm-up+flush, observations on a fresh instance).
 func c13ChainRun(cs c13Chain) (got, fresh string, err error) {
 	T := len(c13ChainInputs)
+	if cs.L > 4 {
+		T = cs.L + 4 // a leftover deep inside a long chain needs the chain's length to reach the output
+	}
 	n0, s0, err := cs.build()
 	if err != nil {
 		return "", "", err
@@ -607,8 +610,15 @@ func c13ChainRun(cs c13Chain) (got, fresh string, err error) {
 func c13Chains(c *Ctx) {
 	var n int64
 	nets := 0
-	for L := 1; L <= 4; L++ {
+	lengths := []int{1, 2, 3, 4, 9, 24, 48} // beyond 4: deep chains, extra link into the first, middle and last chain node only
+	if !c.Quick() {
+		lengths = append(lengths, 96, 160)
+	}
+	for _, L := range lengths {
 		for target := 1; target <= L; target++ {
+			if L > 4 && target != 1 && target != L/2 && target != L {
+				continue
+			}
 			for source := 0; source <= 3; source++ {
 				for _, delayed := range []bool{true, false} {
 					for _, rev := range []bool{false, true} {
@@ -616,7 +626,21 @@ func c13Chains(c *Ctx) {
 							for module := 0; module <= 3; module++ {
 								nets++
 								for mode := 0; mode <= 4; mode++ {
-									for k := 1; k <= len(c13ChainInputs); k++ {
+									for ki := 1; ki <= len(c13ChainInputs); ki++ {
+										k := ki
+										if L > 4 {
+											// warm-up lengths around the chain's own length instead of 4..7
+											switch ki {
+											case 4:
+												k = L / 2
+											case 5:
+												k = L
+											case 6:
+												k = L + 1
+											case 7:
+												k = L + 3
+											}
+										}
 										cs := c13Chain{L: L, Target: target, Source: source, Delayed: delayed, Reverse: rev, Direct: direct, Module: module % 3, Hot: module == 3, Mode: mode, WarmUp: k}
 										got, fresh, err := c13ChainRun(cs)
 										if err != nil {
